@@ -196,7 +196,7 @@ def install(tap, run):
         if len(coords) > 2:
             run.count("class:extra_coordinates")
 
-    tap.function(vc, "block_split", post=post)
+    tap.function(vc, "block_split", post=post, documented={"spacing": None, "adjust": "spacing", "region": None, "shape": None})
 
 
 # ----------------------------------------------------------------------
@@ -219,6 +219,8 @@ def _block_args(rng, region, allow_single=True):
     else:
         kwargs["spacing"] = (float((n - s) / rng.uniform(0.4, 9)), float((e - w) / rng.uniform(0.4, 9)))
         kwargs["adjust"] = str(rng.choice(["spacing", "region"]))
+    if "adjust" in kwargs and kwargs["adjust"] == "spacing" and rng.random() < 0.6:
+        del kwargs["adjust"]  # rely on the documented default
     # the same values in other accepted spellings: list / ndarray / numpy scalars / Python ints
     spell = int(rng.integers(0, 6))
     if "shape" in kwargs:
